@@ -39,7 +39,7 @@ def run(ctx):
                    "ack/err = OR over all slaves; dat_r term i = sel_r[i] & slaves[i].dat_r; sel[i] from slaves[i]'s own "
                    "predicate on master.adr; sel_r follows sel", min_sites=16)
     ctx.rule("W3", "composition: shared bus is arbiter target = decoder master = timeout master; crossbar: one decoder per "
-                   "master row, one arbiter per transposed column, predicates taken from the slave list", min_sites=6)
+                   "master row, one arbiter per transposed column, predicates taken from the slave list", min_sites=4)
     ctx.rule("W4", "region predicate a[k:] == origin >> k with one k; origin and size converted bytes->words alike", min_sites=2)
     ctx.rule("W5", "the select gating returned data and the select gating cyc have the same register depth", min_sites=1)
     ctx.rule("W6", "the shared bus watchdog (wishbone.Timeout) terminates only an unanswered request: timer.wait = stb & cyc & "
@@ -76,8 +76,9 @@ def run(ctx):
         ok = len(ds) == 1 and not ds[0].guards
         if ok:
             v = ds[0].value
-            ok = isinstance(v, ast.Subscript) and norm(v.slice) == "self.rr.grant" and isinstance(v.value, ast.Call) and \
-                norm(v.value.func) == "Array" and f".{name} for " in norm(v.value) and norm(v.value).endswith("in masters))")
+            ew = q.elementwise(v.value.args[0]) if isinstance(v, ast.Subscript) and isinstance(v.value, ast.Call) and \
+                norm(v.value.func) == "Array" and len(v.value.args) == 1 else None
+            ok = ew == (f"@.{name}", "masters") and norm(v.slice) == "self.rr.grant"
         ctx.ob("W1", WB, "Arbiter", f"target.{name} = masters[grant].{name}", ok,
                "" if ok else f"target.{name} <= {ds[0].v if ds else '(no driver)'}", ds[0].line if ds else 0)
     for name in s2m:
@@ -91,8 +92,9 @@ def run(ctx):
     if ok:
         # exactly the masters' cyc
         sup = [p for p in q.paths(rq[0].value)]
-        ok = rq[0].v in ("Cat(*[m.cyc for m in masters])", "Cat(*(m.cyc for m in masters))") or \
-            (all(p.endswith(".cyc") or p == "masters" for p in sup) and "masters" in sup)
+        v = rq[0].value
+        ew = q.elementwise(v.args[0]) if isinstance(v, ast.Call) and norm(v.func) == "Cat" and len(v.args) == 1 else None
+        ok = ew == ("@.cyc", "masters") or (all(p.endswith(".cyc") or p == "masters" for p in sup) and "masters" in sup)
     ctx.ob("W1", WB, "Arbiter", "request = the masters' cyc (not stb)", ok,
            "" if ok else f"rr.request <= {rq[0].v if rq else '?'}: the grant may move inside a bus cycle or never be requested",
            rq[0].line if rq else 0)
@@ -118,7 +120,7 @@ def run(ctx):
         if name == "cyc":
             continue
         ds = [a for a in fx.find(domain="comb") if a.t.endswith(f"[1].{name}") and a.t.startswith("slaves[")]
-        ok = len(ds) == 1 and ds[0].v == f"master.{name}" and not ds[0].guards and any(it == "slaves" for _, it in ds[0].loops)
+        ok = len(ds) == 1 and ds[0].v == f"master.{name}" and not ds[0].guards and any(it in ("slaves", "enumerate(slaves)") for _, it in ds[0].loops)
         ctx.ob("W2", WB, "Decoder", f"{name} forwarded to every slave", ok,
                "" if ok else f"master.{name} is not forwarded to all slaves ({[a.v for a in ds]})", ds[0].line if ds else 0)
     for name in ("ack", "err"):
@@ -126,10 +128,8 @@ def run(ctx):
         ok = len(ds) == 1 and not ds[0].guards
         if ok:
             v = ds[0].value
-            ok = isinstance(v, ast.Call) and norm(v.func) == "Reduce" and norm(v.args[0]) == "'OR'" and \
-                isinstance(v.args[1], (ast.ListComp, ast.GeneratorExp)) and len(v.args[1].generators) == 1 and \
-                norm(v.args[1].generators[0].iter) == "slaves" and not v.args[1].generators[0].ifs and \
-                norm(v.args[1].elt) == norm(v.args[1].generators[0].target) + f"[1].{name}"
+            ok = isinstance(v, ast.Call) and norm(v.func) == "Reduce" and len(v.args) == 2 and norm(v.args[0]) == "'OR'" and \
+                q.elementwise(v.args[1]) == (f"@[1].{name}", "slaves")
         ctx.ob("W2", WB, "Decoder", f"master.{name} = OR over all slaves", ok, "" if ok else f"master.{name} <= {ds[0].v if ds else '?'}",
                ds[0].line if ds else 0)
     dr = fx.find(domain="comb", target="master.dat_r")
@@ -198,27 +198,9 @@ def run(ctx):
     ctx.ob("W3", WB, "InterconnectShared", "Timeout watches the shared bus", ok, "" if ok else f"{t}")
     ok = "shared" in fx.decl and fx.decl["shared"][0] == "Interface"
     ctx.ob("W3", WB, "InterconnectShared", "shared is one fresh Interface", ok, "" if ok else "shared bus is not a fresh Interface")
+    # (crossbar composition: decided under W7 by abstract interpretation of the constructor, rules_xbar.crossbar_shape)
     fx = fx_of(ctx, WB, "Crossbar")
     fail_closed(ctx, fx, "Crossbar")
-    decs = [i for i in fx.insts if i.cls == "Decoder"]
-    arbs = [i for i in fx.insts if i.cls == "Arbiter"]
-    ok = len(decs) == 1 and len(arbs) == 1
-    if ok:
-        dargs = [norm(x) for x in decs[0].call.args]
-        # Decoder(master_k, zip(matches, access[k]), register)
-        ok = dargs[0].startswith("masters[") and "access[" in dargs[1] and dargs[0][len("masters["):-1] == dargs[1][dargs[1].index("access[") + 7:dargs[1].index("]", dargs[1].index("access["))] \
-            and "zip(*slaves)[0]" in dargs[1] and dargs[2] == "register"
-        ctx.ob("W3", WB, "Crossbar", "one Decoder per master on its own access row with the slaves' predicates", ok, "" if ok else f"{dargs}", decs[0].node)
-        aargs = [norm(x) for x in arbs[0].call.args]
-        ok2 = aargs[0].startswith("zip(*access)[") and aargs[1].startswith("zip(*slaves)[1][") and \
-            aargs[0][len("zip(*access)["):-1] == aargs[1][len("zip(*slaves)[1]["):-1]
-        ctx.ob("W3", WB, "Crossbar", "one Arbiter per transposed access column onto the matching slave bus", ok2, "" if ok2 else f"{aargs}", arbs[0].node)
-    else:
-        ctx.ob("W3", WB, "Crossbar", "decoder/arbiter matrix:present", False, f"{len(decs)} decoders, {len(arbs)} arbiters")
-    acc = fx.localdefs.get("access")
-    ok = acc is not None and isinstance(acc, ast.ListComp) and norm(acc.generators[0].iter) == "masters" and \
-        isinstance(acc.elt, ast.ListComp) and norm(acc.elt.generators[0].iter) == "slaves"
-    ctx.ob("W3", WB, "Crossbar", "access matrix is masters x slaves", ok, "" if ok else f"access = {norm(acc) if acc is not None else '?'}")
 
     # ================================================================ W4
     sm = ctx.mod(SOC)
